@@ -40,7 +40,14 @@ class KeyedADMM:
     def __call__(self, cov, lam, W, N, **kw):
         n = int(W) * int(N)
         L = n * (n + 1) // 2
-        key = tuple(str(z3.simplify(R(v))) for v in np.asarray(cov)._flat()) + (str(lam), int(W), int(N))
+        def show(v):
+            try:
+                return str(z3.simplify(R(v)))
+            except Exception:
+                return repr(v)
+        # every argument the optimiser is given is part of the key -- its keyword settings too
+        key = tuple(str(z3.simplify(R(v))) for v in np.asarray(cov)._flat()) + (str(lam), int(W), int(N)) + \
+            tuple(sorted((k, show(v)) for k, v in kw.items()))
         if key not in self.table:
             k = len(self.table)
             self.table[key] = np.ndarray._new([self.c.real('admm%d_%d' % (k, i)) for i in range(L)], (L,), np.float64)
@@ -91,9 +98,10 @@ class C14(Check):
         cfgs.append(Config('pool_size', self.pool_size, {'K': 2}, split=2, witness_every=5))
         cfgs.append(Config('repopulating_runs', self.repopulating_runs, {}, split=3))
         cfgs.append(Config('cache_order', self.cache_order, {}, nonlinear=True, witness_every=2))
+        cfgs.append(Config('hyperparameter_history', self.hyper_history, {}, split=3, witness_every=3))
         return cfgs
 
-    def _run(self, c, K, lim, schedule, env=None, nproc=1, admm=None, repop=None, labels=None, P=3, data=None):
+    def _run(self, c, K, lim, schedule, env=None, nproc=1, admm=None, repop=None, labels=None, P=3, data=None, eps=0):
         Rp = self.R
         modes = {'initial': 'summary', 'optimise': 'real'}
         if repop:
@@ -118,7 +126,8 @@ class C14(Check):
             with ml:
                 res = Rp.front_end.ticc_labels(data, window_size=1, num_clusters=K, iteration_limit=lim,
                                                min_cluster_size=1, sparsity_weight=0.1, label_switching_cost=1.0,
-                                               num_processors=nproc, biased_covariance=True)
+                                               num_processors=nproc, biased_covariance=True,
+                                               min_meaningful_covariance=eps)
         finally:
             Rp.admm.admm_optimize_theta = old
             Rp.cm.random = old_random
@@ -193,6 +202,26 @@ class C14(Check):
         want = nproc if env else 1
         c.prove('pool_size_follows_env_and_argument',
                 conj([len(ml.pools) == 1, stubs.same_terms(ml.pools[0].processes, want)]))
+
+    def hyper_history(self, c):
+        """An earlier fit with OTHER hyper-parameters (an arbitrary covariance floor, another size) in the same
+        process, then the fit under test: its result must be the one a fresh process gives."""
+        from symx import loader
+        admm = KeyedADMM(c, self.R)
+        eps_a = c.real('eps_a', 0)
+        K = 2
+        c.notes.update({'kind': 'hyper_history'})
+        ok, out = guarded(c, 'result_independent_of_earlier_calls', self._run, c, K, 1, 'fifo', None, 1, admm,
+                          None, None, 4, None, eps_a)
+        if not ok:
+            return
+        ok, out = guarded(c, 'result_independent_of_earlier_calls', self._run, c, K, 1, 'fifo', None, 1, admm)
+        if not ok:
+            return
+        after_history = out[0]
+        loader.clear_caches()
+        fresh, _ = self._run(c, K, 1, 'fifo', admm=admm)
+        c.prove('result_independent_of_earlier_calls', results_equal(after_history, fresh))
 
     def cache_order(self, c):
         from symx import loader
